@@ -1,3 +1,5 @@
 import Mistune.Util
 import Mistune.Unicode
 import Mistune.Toc
+import Mistune.Footnotes
+import Mistune.Cli
